@@ -288,3 +288,5 @@ def run(ctx, F):
     ctx.run_rule("C02-R2", "boundary assertions cover all 16 stack columns, b0, b1, clk, fmp at row 0, all 16 stack columns at the last row, and the overflow-table column depends on every overflow input/output/address", r2_boundary, F)
     ctx.run_rule("C02-R3", "verify() accepts only the documented option set per hash function with the matching coin; hash tags decode injectively and reject unknown tags", r3_option_gate, F)
     ctx.run_rule("C02-R4", "no panic construct in verify(), PublicInputs or ExecutionProof code reachable from verify()", r4_no_panic, F)
+    from . import rules_c19
+    ctx.run_rule("C02-R5", "the statement's integer encodings are injective: every integer vector a statement is built from (stack outputs, overflow addresses, stack / advice inputs) is rejected when an entry is >= the field modulus, so two different statements never reduce to the same seed and boundary values (= C19-R4)", rules_c19.r4_canonical_elements, F)
